@@ -196,6 +196,19 @@ func corrC18(outDir string, seed uint64, tier string, replay string) *report {
 				}
 			}
 		}
+		// the same Unmarshal call twice in a row (nothing in between): same outcome
+		for i, op := range ops {
+			if op.marshal || i%2 != 0 {
+				continue
+			}
+			a1 := runHistOp(op, types)
+			a2 := runHistOp(op, types)
+			if a1.text != a2.text {
+				rep.fail(map[string]interface{}{"history": hI, "op": i, "type": types[op.ty].String(), "form": formNames[op.form], "hash": op.h}, a1.text, a2.text,
+					"Unmarshal of the same string has another outcome when it is repeated immediately")
+				break
+			}
+		}
 		// soak: twenty thousand failing calls (bad prefix value, bad field value, malformed string), then a sample of the
 		// history again: state that leaks a little on every failing call has accumulated by now
 		if hI == 0 {
@@ -203,7 +216,7 @@ func corrC18(outDir string, seed uint64, tier string, replay string) *report {
 				HashPrefix Picky
 				S          string
 			}
-			for k := 0; k < 20000; k++ {
+			for k := 0; k < 45000; k++ {
 				switch k % 3 {
 				case 0:
 					marshalObs(badPfx{"fail", "x"})
@@ -221,7 +234,7 @@ func corrC18(outDir string, seed uint64, tier string, replay string) *report {
 				again := runHistOp(op, types)
 				if again.text != warm[i].text {
 					rep.fail(map[string]interface{}{"history": hI, "op": i, "type": types[op.ty].String(), "form": formNames[op.form], "marshal": op.marshal, "hash": op.h},
-						warm[i].text, again.text, "the outcome of a call changes after twenty thousand failing Marshal / Unmarshal calls (state leaks on error paths)")
+						warm[i].text, again.text, "the outcome of a call changes after 45000 failing Marshal / Unmarshal calls (state leaks on error paths)")
 					break
 				}
 			}
